@@ -1,7 +1,7 @@
 """Groups REC / FR (§5.3): what the recovery reader may deliver."""
 import re
 
-from core import op_local, op_const_bits, op_const_named, place_fields, mem_loc, strip_crate, alias_paths, place_path, ok_bool_edges, result_edges
+from core import op_local, op_const_bits, op_const_named, place_fields, mem_loc, strip_crate, alias_paths, place_path, ok_bool_edges, result_edges, rvalue_operands
 from engine import rule
 from flow import flow_of
 from vocab import where, const_comparisons, switch_on_result
@@ -501,6 +501,20 @@ def fr3(ctx):
                         g = any(b.edge_dominates(se, e['point']) for se in some_edges)
                         ctx.check(g, '%s:ok-exit' % b.path, where(b, e['point']), 'Ok(header) dominated by the Some edge of Header::deserialize',
                                   'a header can be returned although Header::deserialize rejected it')
+                # ... and a header that does NOT decode condemns the rest of the block: from the None edge no return is reached
+                # without `block_corrupted = true`. Its length field is as untrustworthy as its type byte: a reader that
+                # "skips just that frame" by the length of a garbage header resumes parsing inside payload bytes, and
+                # whatever there looks like a frame (a payload that embeds WAL bytes) is replayed as one.
+                none_edges = []
+                for (bi, pl, adt, edges) in b.discr_switches():
+                    if place_path(known, pl) == [()] and 'None' in edges:
+                        none_edges.append(edges['None'])
+                quar = [p for (p, pl, rv) in stores_to(b, 'FrameReader', 'block_corrupted') if const_store_val(rv) == 1]
+                rets = b.return_points()
+                for k_, ne in enumerate(none_edges):
+                    leak = ne[1] not in quar and any(r_ in b.reach([ne[1]], avoid=quar) for r_ in rets)
+                    ctx.check(not leak, '%s:undecodable-header-quarantines#%d' % (b.path, k_ + 1), where(b, ne[1]), 'a header that does not decode quarantines the block before the call returns',
+                              'a header that does not decode no longer condemns the rest of its block (no block_corrupted = true on the way out): the reader goes on by a length it cannot trust and parses payload bytes as frames')
     if n == 0:
         ctx.missing('deserialize-user', 'no FrameReader body calls Header::deserialize')
 
@@ -705,7 +719,7 @@ def fr9(ctx):
                       'Header::deserialize rejects a header for another reason than an invalid frame-type byte: damage confined to the checksum / length bytes of one frame would quarantine the rest of its block')
 
 
-@rule('FR7', ['C10', 'C01', 'C02'], floor=3, template='control-dependence')
+@rule('FR7', ['C10', 'C01', 'C02', 'C09'], floor=3, template='control-dependence')
 def fr7(ctx):
     """A quarantined or exhausted block is left before the next header is read."""
     n = 0
@@ -778,6 +792,25 @@ def fr7(ctx):
     if n == 0:
         ctx.missing('next_block-body', 'no FrameReader body calls BlockRead::next_block')
 
+
+    # the header peek itself (`block[cursor..][..HEADER_LEN]`) is only safe right after that room check: every call of the
+    # body that cuts a header out of the block is preceded, on every path from the function entry and from every
+    # advance of the cursor, by the call that leaves an exhausted block -- a second peek "to see what comes next" after a
+    # frame was consumed slices past the end of the block whenever that frame was the last of its block
+    rdr = [x for x in ctx.f.bodies.values() if not x.generic_dup() and x.path.startswith('frame::reader::FrameReader')]
+    room = {x.id for x in rdr if any(cs.orig.endswith('BlockRead::next_block') or cs.path.endswith('::next_block') for cs in x.calls)}
+    peek = {x.id for x in rdr if 'frame::header::Header' in x.ret_ty and any((op_const_named(o) or '').endswith('HEADER_LEN') for blk in x.blocks for st in blk['stmts'] if st['k'] == 'assign' for o in rvalue_operands(st['rv']))}
+    for b in rdr:
+        pk = [cs for cs in b.calls if cs.node in peek]
+        if not pk or b.id in peek:
+            continue
+        rm = [cs.point for cs in b.calls if cs.node in room]
+        adv = [p for (p, pl, rv) in b.stores if mem_loc(pl) == 'FrameReader.cursor']
+        for k, cs in enumerate(pk):
+            n += 1
+            unguarded = cs.point in b.reach([b.entry], avoid=rm) or any(cs.point in b.reach_after(a, avoid=rm) for a in adv)
+            ctx.check(not unguarded, '%s:header-peek-after-room-check#%d' % (b.path, k + 1), where(b, cs.point), 'the header is read only right after the block-room check',
+                      'a header is cut out of the block without the room check since the cursor last moved: when the frame just consumed was the last of its block the slice runs past the end of the block and open panics')
 
 @rule('FR8', ['C08', 'C02', 'C12', 'C18'], floor=2, template='no-reach')
 def fr8(ctx):
